@@ -443,6 +443,17 @@ class Simulator(Computer, _mixins.CodeMixin):
 
         self._validate_instructions(instructions, d)
 
+        if shots is None:
+            for instruction in instructions:
+                if isinstance(instruction, Measurement) and not isinstance(
+                    instruction, self._measurement_classes_allowed_with_shots_none
+                ):
+                    raise InvalidParameter(
+                        f"The measurement '{type(instruction).__name__}' instruction "
+                        f"does not support 'shots=None' using "
+                        f"'{self.__class__.__name__}'."
+                    )
+
         if initial_state is not None:
             self._validate_initial_state(initial_state, d)
             state = initial_state.copy()
